@@ -5,7 +5,7 @@
 cd /verif; LOG=/tmp/seed-sweep.log; : > $LOG
 for d in seeded/C*; do
   id=$(basename $d)
-  git -C /repo apply $d/patch.diff || { echo "$id PATCH-FAILED" >> $LOG; continue; }
+  git -C /repo apply /verif/$d/patch.diff || { echo "$id PATCH-FAILED" >> $LOG; continue; }
   VERIF_BUDGET_S=1500 ./run.sh $id quick > /tmp/seed-sweep-$id.log 2>&1; rc=$?
   git -C /repo checkout -- . ; git -C /repo clean -fdq
   echo "$id rc=$rc violations=$(grep -c '^VIOLATION' /tmp/seed-sweep-$id.log) known=$(grep -c '^KNOWN-FINDING' /tmp/seed-sweep-$id.log)" >> $LOG
